@@ -98,7 +98,111 @@ theorem pickGcs_nodup (ids : List Nat) (c : Child) (hg : (c.gcs.map GChild.guid)
   rw [List.nodup_iff_pairwise_ne, List.pairwise_map] at hg ⊢
   exact List.Pairwise.filter _ hg
 
-/-- `child.query_by_guids(ids)` of a gene / feature collection: `None` iff no grandchild is requested … -/
+/-! ### variant collections: sorted, checked for overlaps -/
+
+/-- what `VariantIntervalCollection.__init__` establishes for the harness's sources: the variants are listed by
+    start, pairwise disjoint, and none is empty (`VariantInterval` refuses `start == end`) -/
+def VarOK (c : Child) : Prop :=
+  c.gcs.Pairwise (fun x y => x.stop ≤ y.start) ∧ ∀ x ∈ c.gcs, x.start < x.stop
+
+theorem pairwise_mem_or {α} {R : α → α → Prop} {l : List α} (h : l.Pairwise R) {x y : α} (hx : x ∈ l) (hy : y ∈ l)
+    (hne : x ≠ y) : R x y ∨ R y x := by
+  induction l with
+  | nil => cases hx
+  | cons a as ih =>
+    rw [List.pairwise_cons] at h
+    rcases List.mem_cons.mp hx with rfl | hx' <;> rcases List.mem_cons.mp hy with rfl | hy'
+    · exact absurd rfl hne
+    · exact Or.inl (h.1 y hy')
+    · exact Or.inr (h.1 x hx')
+    · exact ih h.2 hx' hy'
+
+def byGStart (x y : GChild) : Bool := decide (x.start ≤ y.start)
+
+/-- the requested grandchildren as the model's new child holds them: variants re-sorted by start -/
+def pickM (ids : List Nat) (c : Child) : List GChild :=
+  match c.kind with
+  | .var => (pickGcs ids c).mergeSort (fun x y => decide (x.start ≤ y.start))
+  | _ => pickGcs ids c
+
+theorem pickM_perm_pick (ids : List Nat) (c : Child) : (pickM ids c).Perm (pickGcs ids c) := by
+  unfold pickM
+  cases c.kind
+  · exact List.Perm.refl _
+  · exact List.Perm.refl _
+  · exact List.mergeSort_perm _ _
+
+theorem relLoc_disjoint (par : Par) (x y : GChild) (h : x.stop ≤ y.start) (hx : x.start < x.stop)
+    (hy : y.start < y.stop) : relOverlap par x y = false := by
+  unfold relOverlap
+  cases par with
+  | chunk cs seq =>
+    unfold chunkRelLoc
+    simp only []
+    rw [overlapInt_iff _ _ _ _ (by omega) (by omega), overlapInt_iff _ _ _ _ (by omega) (by omega)]
+    by_cases h1 : x.start < cs + (seq.length : Int) ∧ cs < x.stop ∧ x.start < x.stop ∧ cs < cs + (seq.length : Int)
+    · by_cases h2 : y.start < cs + (seq.length : Int) ∧ cs < y.stop ∧ y.start < y.stop ∧ cs < cs + (seq.length : Int)
+      · simp only [h1, h2, and_self, decide_true, if_true]
+        rw [overlapInt_iff _ _ _ _ (by omega) (by omega)]
+        simp only [decide_eq_false_iff_not]
+        omega
+      · simp only [decide_eq_true h1, decide_eq_false h2, if_true, Bool.false_eq_true, if_false]
+    · simp only [h1, decide_false, Bool.false_eq_true, if_false]
+  | none =>
+    simp only [chunkRelLoc]; rw [overlapInt_iff _ _ _ _ (by omega) (by omega)]
+    simp only [decide_eq_false_iff_not]; omega
+  | noseq =>
+    simp only [chunkRelLoc]; rw [overlapInt_iff _ _ _ _ (by omega) (by omega)]
+    simp only [decide_eq_false_iff_not]; omega
+  | whole _ =>
+    simp only [chunkRelLoc]; rw [overlapInt_iff _ _ _ _ (by omega) (by omega)]
+    simp only [decide_eq_false_iff_not]; omega
+
+theorem adjOverlap_false (par : Par) (l : List GChild) (h : l.Pairwise (fun x y => x.stop ≤ y.start))
+    (hne : ∀ x ∈ l, x.start < x.stop) : adjOverlap par l = false := by
+  induction l with
+  | nil => rfl
+  | cons x xs ih =>
+    cases xs with
+    | nil => rfl
+    | cons y ys =>
+      rw [List.pairwise_cons] at h
+      unfold adjOverlap
+      rw [relLoc_disjoint par x y (h.1 y List.mem_cons_self) (hne x List.mem_cons_self)
+        (hne y (List.mem_cons_of_mem _ List.mem_cons_self)),
+        ih h.2 (fun z hz => hne z (List.mem_cons_of_mem _ hz))]
+      rfl
+
+theorem pick_sub (ids : List Nat) (c : Child) (x : GChild) (hx : x ∈ pickGcs ids c) : x ∈ c.gcs := by
+  unfold pickGcs at hx
+  rw [List.mem_filterMap] at hx
+  obtain ⟨k, _, hd⟩ := hx
+  exact (dictGet_some _ _ _ _ hd).1
+
+/-- the start-sorted selection of pairwise disjoint non-empty variants is pairwise disjoint in that order -/
+theorem sorted_pick_disjoint (ids : List Nat) (c : Child) (hv : VarOK c) (hg : (c.gcs.map GChild.guid).Nodup)
+    (hids : ids.Nodup) :
+    ((pickGcs ids c).mergeSort (fun x y => decide (x.start ≤ y.start))).Pairwise (fun x y => x.stop ≤ y.start) := by
+  have hsorted : ((pickGcs ids c).mergeSort (fun x y => decide (x.start ≤ y.start))).Pairwise
+      (fun x y => decide (x.start ≤ y.start) = true) :=
+    List.pairwise_mergeSort (by intro a b c; simp only [decide_eq_true_eq]; omega)
+      (by intro a b; simp only [Bool.or_eq_true, decide_eq_true_eq]; omega) _
+  have hperm := List.mergeSort_perm (pickGcs ids c) (fun x y => decide (x.start ≤ y.start))
+  have hnd : ((pickGcs ids c).mergeSort (fun x y => decide (x.start ≤ y.start))).Pairwise (· ≠ ·) := by
+    have := nodup_of_nodup_map GChild.guid _ (pickGcs_nodup ids c hg hids)
+    rw [List.nodup_iff_pairwise_ne] at this
+    exact hperm.symm.pairwise this (fun h => Ne.symm h)
+  refine List.Pairwise.imp_of_mem ?_ (hsorted.and hnd)
+  intro x y hx hy hxy
+  have hx' := pick_sub ids c x (hperm.mem_iff.mp hx)
+  have hy' := pick_sub ids c y (hperm.mem_iff.mp hy)
+  have hle : x.start ≤ y.start := by simpa using hxy.1
+  rcases pairwise_mem_or hv.1 hx' hy' hxy.2 with h | h
+  · exact h
+  · have := hv.2 y hy'
+    omega
+
+/-- `child.query_by_guids(ids)`: `None` iff no grandchild is requested … -/
 theorem childQueryByGuids_none (par : Par) (c : Child) (ids : List Nat)
     (h : hullOf ((pickGcs ids c).map fun g => (g.start, g.stop)) = none) :
     childQueryByGuids par c ids = .ok none := by
@@ -107,19 +211,28 @@ theorem childQueryByGuids_none (par : Par) (c : Child) (ids : List Nat)
   simp only [h]
   rfl
 
-/-- … else the SAME child (guid, kind, identifiers) holding exactly the requested grandchildren, span = their hull -/
-theorem childQueryByGuids_some (par : Par) (c : Child) (ids : List Nat) (hk : c.kind ≠ .var)
+/-- … else the SAME child (guid, kind, identifiers) holding exactly the requested grandchildren (variants re-sorted
+    by start; they stay disjoint, so the constructor's overlap check passes), span = their hull -/
+theorem childQueryByGuids_some (par : Par) (c : Child) (ids : List Nat) (hk : c.kind = .var → VarOK c)
     (hg : (c.gcs.map GChild.guid).Nodup) (hids : ids.Nodup) (a b : Int)
     (h : hullOf ((pickGcs ids c).map fun g => (g.start, g.stop)) = some (a, b)) :
-    childQueryByGuids par c ids = .ok (some { c with gcs := pickGcs ids c, start := a, stop := b }) := by
+    childQueryByGuids par c ids = .ok (some { c with gcs := pickM ids c, start := a, stop := b }) := by
   have hnd := pickGcs_nodup ids c hg hids
-  unfold childQueryByGuids
+  unfold childQueryByGuids pickM
   unfold pickGcs at h hnd ⊢
   simp only [h]
   have hdup : decide (¬ (List.map GChild.guid (List.filterMap (dictGet GChild.guid c.gcs) ids)).Nodup) = false := by
     simp only [decide_eq_false_iff_not, Classical.not_not]; exact hnd
   cases hkk : c.kind with
-  | var => exact absurd hkk hk
+  | var =>
+    have hv := hk hkk
+    have hdis := sorted_pick_disjoint ids c hv hg hids
+    unfold pickGcs at hdis
+    have hadj := adjOverlap_false par _ hdis (fun x hx => hv.2 x (by
+      have := (List.mergeSort_perm _ _).mem_iff.mp hx
+      exact pick_sub ids c x this))
+    simp only [hadj, hdup, Bool.false_eq_true, if_false]
+    rfl
   | gene => simp only [hdup, Bool.false_eq_true, if_false]; rfl
   | feat => simp only [hdup, Bool.false_eq_true, if_false]; rfl
 
@@ -145,23 +258,21 @@ theorem reduceChild_some (ids : List Nat) (c : Child) (hg : (c.gcs.map GChild.gu
 
 theorem reduced_norm_eq (rp rp' : RPar) (hrp : rp.norm = rp'.norm) (c : Child) (txs g : List GChild) (a b : Int)
     (hp : txs.Perm g) (hnd : (g.map GChild.guid).Nodup)
-    (hseq : ∀ x ∈ g, (liftG rp c.kind x).mseq.norm = (expectMSeq rp x).norm) :
+    (hseq : ∀ x ∈ g, (memberSeq rp x).norm = (expectMSeq rp x).norm) :
     (liftChildP rp { c with gcs := txs, start := a, stop := b }).norm
       = (expectChild rp' { c with gcs := g, start := a, stop := b }).norm := by
   unfold liftChildP expectChild RChild.norm
   simp only [List.map_map, RChild.mk.injEq, true_and]
-  have e : g.map (RGChild.norm ∘ expectGChild rp') = g.map (RGChild.norm ∘ liftG rp c.kind) := by
+  have e : g.map (RGChild.norm ∘ expectGChild rp') = g.map (RGChild.norm ∘ liftG rp) := by
     apply List.map_congr_left
     intro x hx
     simp only [Function.comp, RGChild.norm, expectGChild, liftG]
-    have := hseq x hx
-    simp only [liftG] at this
-    rw [this, expectMSeq_congr hrp]
+    rw [hseq x hx, expectMSeq_congr hrp]
   rw [e]
   apply sortByKey_eq (fun x : RGChild => x.guid)
   · exact hp.map _
   · simp only [List.map_map]
-    have : ((fun x : RGChild => x.guid) ∘ RGChild.norm ∘ liftG rp c.kind) = GChild.guid := by
+    have : ((fun x : RGChild => x.guid) ∘ RGChild.norm ∘ liftG rp) = GChild.guid := by
       funext x; rfl
     rw [this]; exact hnd
 
@@ -188,10 +299,9 @@ theorem buildNew_meets_gen (src : Source) (wf : SrcWF src) (bs be : Int) (hb : s
     (hnorm : ∀ rp rp', rp.norm = rp'.norm → RPShape src rp →
       (keptM.map fun c => (liftChildP rp c).norm).Perm (keptS.map fun c => (expectChild rp' c).norm))
     (hnd : (keptS.map Child.guid).Nodup)
-    (start stop : Int) (hlt : src.par.hasSeq = true → start < stop)
-    (hin : src.par.hasSeq = true → (bs ≤ start ∧ stop ≤ be) ∨ Clampable src bs be start stop) :
+    (start stop : Int) (hdom : SubsetDomain src bs be start stop) :
     ∃ r, buildNew src keptM start stop = .ok r ∧ r.norm = (expectResult src start stop keptS).norm := by
-  obtain ⟨rp, hsp, hn, hne, hshape⟩ := subsetParent_spec src wf bs be hb start stop hlt hin
+  obtain ⟨rp, hsp, hn, hne, hshape⟩ := subsetParent_spec src wf bs be hb start stop hdom
   refine ⟨_, buildNew_eq src keptM start stop rp hsp hne hk, ?_⟩
   unfold expectResult
   exact result_norm_eq_gen keptM keptS rp _ hn (hnorm rp _ hn hshape) hnd start stop
@@ -202,11 +312,10 @@ theorem returnForIdQueries_meets_gen (src : Source) (wf : SrcWF src) (bs be : In
     (hnorm : ∀ rp rp', rp.norm = rp'.norm → RPShape src rp →
       (keptM.map fun c => (liftChildP rp c).norm).Perm (keptS.map fun c => (expectChild rp' c).norm))
     (hnd : (keptS.map Child.guid).Nodup)
-    (hne : src.par.hasSeq = true → bs < be)
-    (hin : src.par.hasSeq = true → IdDomain src bs be keptS) :
+    (hin : (locRange src).isSome = true → IdDomain src bs be keptS) :
     okIdResult src keptS (toAns (returnForIdQueries src keptM)) = true := by
   unfold okIdResult expectIdResult returnForIdQueries
-  rw [specBounds_eq_self hb, needBounds_of hb]
+  rw [specBounds_eq_self hb, checkSource_ok wf.cons, needBounds_of hb]
   simp only [bind, Except.bind]
   have hbnd : idQueryBounds bs be keptM = idBounds bs be keptS := by
     rw [idQueryBounds_eq]
@@ -220,8 +329,7 @@ theorem returnForIdQueries_meets_gen (src : Source) (wf : SrcWF src) (bs be : In
   obtain ⟨ns, ne⟩ := nb
   simp only []
   obtain ⟨r, hr, hrn⟩ := buildNew_meets_gen src wf bs be hb keptM keptS hk hnorm hnd ns ne
-    (fun hs => (idDomain_bounds src bs be keptS (hne hs) ns ne hnb (hin hs)).1)
-    (fun hs => (idDomain_bounds src bs be keptS (hne hs) ns ne hnb (hin hs)).2)
+    (idDomain_subset src wf bs be hb keptS ns ne hnb hin)
   rw [hr]
   simp only [toAns, meets, beq_iff_eq]
   exact hrn
